@@ -1027,6 +1027,9 @@ func (c *kase) close() {
 }
 
 func runCase(t *rapid.T, k kind) {
+	if vstat.OverBudget() {
+		return
+	}
 	vstat.Case()
 	n := rapid.IntRange(2, maxNodes).Draw(t, "nodes")
 	avoid := rapid.Bool().Draw(t, "avoidKnownShapes")
